@@ -3,13 +3,16 @@
   128-EEA2 / 128-EIA2 (TS 33.401 Annex B.1.3 / B.2.3). Written from the specifications.
 -/
 import Stgutg.Base.Prims
+import Stgutg.Base.Words
 import Stgutg.Spec.Snow3g
 
 namespace Stgutg.Spec.NasAlg
 open Stgutg.Spec
 
-def word (b : Bytes) : UInt32 := b.foldl (fun a x => (a <<< 8) ||| x.toUInt32) 0
-def wordBytes (w : UInt32) : Bytes := [(w >>> 24).toUInt8, (w >>> 16).toUInt8, (w >>> 8).toUInt8, w.toUInt8]
+/-- octets `A ‖ B ‖ C ‖ D` as a 32-bit word -/
+abbrev word := be32
+abbrev wordBytes := u32Bytes
+abbrev dword := be64
 
 /-- BEARER[0..4] ‖ DIRECTION[0] ‖ 0^26 as a 32-bit word -/
 def bearerDirWord (bearer dir : Nat) : UInt32 := UInt32.ofNat (bearer * 2 ^ 27 + dir * 2 ^ 26)
@@ -37,7 +40,6 @@ def MUL64xPOW (v : UInt64) (i : Nat) (c : UInt64) : UInt64 :=
 def MUL64 (v p c : UInt64) : UInt64 :=
   (List.range 64).foldl (fun r i => if (p >>> (UInt64.ofNat i)) &&& 1 == 1 then r ^^^ MUL64xPOW v i c else r) 0
 
-def dword (b : Bytes) : UInt64 := b.foldl (fun a x => (a <<< 8) ||| x.toUInt64) 0
 
 /-- the message split into 64-bit blocks M_0 … M_{D-2}, the last one zero padded (at least one block). -/
 def blocks64 : Nat → Bytes → List UInt64
